@@ -5,6 +5,7 @@ from abc import ABC, abstractmethod, ABCMeta
 from dataclasses import dataclass, field
 from functools import lru_cache
 from enum import unique, Enum, auto
+import math
 from typing import TypeVar, Generic, List, Dict, Optional
 from warnings import warn
 from qce_circuit.utilities.custom_exceptions import (
@@ -379,8 +380,10 @@ class MultiRelationLink(IRelationLink[TCircuitOperation], Generic[TCircuitOperat
             return None
         # Iterate over reference node and determine latest
         latest_node: TCircuitOperation = self._reference_nodes[0]
+        # (End times that differ by floating-point rounding only count as equally late)
         for node in self._reference_nodes:
-            if node.end_time >= latest_node.end_time:
+            end_time, latest_end_time = node.end_time, latest_node.end_time
+            if end_time >= latest_end_time or math.isclose(end_time, latest_end_time, rel_tol=1e-9, abs_tol=0.0):
                 latest_node = node
         return latest_node
 
